@@ -19,6 +19,12 @@ func (h *harness) fail(class, sig, detail string) {
 	h.x.Fail(prop, class, sig, detail, h.stepIdx)
 }
 
+// failSoft reports a violation; it returns true when it is a listed known finding, in which
+// case the run goes on (so that the finding does not hide what lies behind it).
+func (h *harness) failSoft(class, sig, detail string) bool {
+	return h.x.FailKnownOrStop(prop, class, sig, detail, h.stepIdx)
+}
+
 // ---- driver ---------------------------------------------------------------------------------
 
 func (h *harness) drive() {
@@ -333,7 +339,7 @@ func (h *harness) onRequest(p *preq) {
 			if s.last == nil {
 				sig = "first-not-child-of-ancestor"
 			}
-			h.fail("order", sig, fmt.Sprintf("session %d handed %s (parent %s) to the chain service after %s %s", s.seq, h.blockStr(b),
+			h.failSoft("order", sig, fmt.Sprintf("session %d handed %s (parent %s) to the chain service after %s %s", s.seq, h.blockStr(b),
 				h.u.lbl(b.GetHeader().GetPrevBlockHash()), what, h.blockStr(prev)))
 		case b.BlockNo() > s.target:
 			h.fail("order", "beyond-target", fmt.Sprintf("session %d handed %s over, target is %d", s.seq, h.blockStr(b), s.target))
@@ -983,6 +989,7 @@ func (h *harness) bound() int64 {
 func (h *harness) runDown(what string) bool {
 	deadline := h.now() + h.bound()
 	idle := 0
+	aborted := false
 	for {
 		h.settle()
 		if h.x.Failed() {
@@ -1018,9 +1025,24 @@ func (h *harness) runDown(what string) bool {
 			if h.cur != nil && !h.cur.ended {
 				pend = fmt.Sprintf("; session %d target %d, %d blocks handed over", h.cur.seq, h.cur.target, h.cur.nAdded)
 			}
-			h.fail("termination", sig, fmt.Sprintf("%s: every request was answered honestly and at once for %d ms of simulated time (bound), %s%s",
+			if aborted && !busy {
+				h.fail("termination", "stuck-session-survives-stop", "a session that did not end was sent SyncStop and is still running: "+d)
+				return false
+			}
+			known := h.failSoft("termination", sig, fmt.Sprintf("%s: every request was answered honestly and at once for %d ms of simulated time (bound), %s%s",
 				what, h.bound()/1_000_000, d, pend))
-			return false
+			if !known || busy {
+				if known {
+					h.abandon = true // known finding, but the syncer cannot be used any further
+				}
+				return false
+			}
+			// known finding: put an end to the stuck session from outside and go on
+			aborted = true
+			h.x.Logf("  aborting the stuck session %d", h.seq)
+			h.post(&message.SyncStop{Seq: h.seq, FromWho: "verif", Err: errStopInj})
+			deadline = h.now() + h.bound()
+			continue
 		}
 		idle++
 		u := int64(h.k.tickA + 1)
